@@ -894,8 +894,26 @@ EXPLANATION = (
     "TypeVar definitions; R4.6 every walk over a value that is definitely a "
     "set (intra-procedural inference) by an order-observing consumer is "
     "either provably order-insensitive or in a frozen, hand-triaged table "
-    "(quick: output-path modules; thorough: whole package).  These are "
+    "(quick: output-path modules; thorough: whole package); R4.8 every "
+    "*process-lifetime state holder* in the analysis modules (all of pytype/ "
+    "except tests, tools/, metrics.py, debug.py) is in a frozen, hand-triaged "
+    "table keyed by (file, qualified name) with the kinds of change it was "
+    "triaged for: a module- or class-scope binding to a stateful iterator "
+    "(itertools.*, iter/map/zip/..., a generator expression, a bound "
+    "__next__ or functools.partial(next, it), also inside a display); a "
+    "module name rebound through `global`; a class attribute stored through "
+    "something that denotes the class (C.X = / += with C a class of the "
+    "module, cls.X in a classmethod/__new__, type(x).X, x.__class__.X, "
+    "setattr of these); a module-scope or class-scope mutable container "
+    "({} [] set() dict() defaultdict() ...) changed in place from inside a "
+    "function (item store/delete, mutator call; class-scope containers only "
+    "if no code rebinds the attribute on an instance); an attribute of an "
+    "imported module stored from inside a function.  A new holder, or a "
+    "triaged holder changed in a new way, is a violation.  These are "
     "necessary conditions.  NOT decided: determinism of the VM as a whole, "
+    "state kept in mutable default arguments, function attributes, "
+    "functools caches, objects reachable from a reused Loader, or containers "
+    "changed only through another module (`other.X[k] = v`), "
     "sets that reach a consumer through a call, an attribute of another "
     "object or an unannotated parameter, iteration over dicts keyed by "
     "id()-hashed objects, tie order of sorted() under a non-injective key.")
@@ -908,6 +926,10 @@ ASSUMPTIONS = [
     "a name bound only to set-valued expressions / annotated as a set is a "
     "set; attributes assigned from outside their class are not tracked",
     "test files, test_data and typeshed are outside the scope",
+    "R4.8: module and class objects (and what their scope binds) live for "
+    "the whole process; code at module/class scope runs once at import; "
+    "msgspec copies a mutable field default per instance; Python calls "
+    "__init__ on whatever __new__ returns",
 ]
 
 IO = "pytype/io.py"
@@ -1467,6 +1489,407 @@ def r4_6_whole(ctx):
   _run_set_rule(ctx, files, _SAFE_WHOLE_PACKAGE)
 
 
+# -- R4.8 ------------------------------------------------------------------------
+# Who may hold state that outlives one analysis: module-level and class-level
+# objects live as long as the process.
+
+_ITER_BUILTINS = {"iter", "map", "filter", "zip", "enumerate", "reversed"}
+_MUTATORS = {"append", "add", "update", "setdefault", "pop", "extend", "insert",
+             "clear", "remove", "discard", "popitem", "appendleft", "extendleft",
+             "popleft", "sort", "reverse", "subtract", "move_to_end",
+             "__setitem__", "__delitem__"}
+_MUTABLE_CTORS = {"dict", "list", "set", "defaultdict", "OrderedDict", "deque",
+                  "Counter", "WeakKeyDictionary", "WeakValueDictionary",
+                  "WeakSet", "bytearray", "ChainMap"}
+_CLS_METHODS = {"__new__", "__init_subclass__", "__class_getitem__"}
+_STATE_EXCLUDED = ("pytype/metrics.py", "pytype/debug.py")
+_STATE_EXCLUDED_DIRS = ("pytype/tools/",)
+
+
+def _plain_tree(ctx, rel):
+  def parse():
+    try:
+      return ast.parse(ctx.read(rel), filename=rel)
+    except SyntaxError as e:
+      raise AnalysisError(f"{rel} does not parse: {e}") from e
+  return ctx.memo(("plain-ast", rel), parse)
+
+
+def _import_map(tree):
+  imp = {}
+  for st in ast.walk(tree):
+    if isinstance(st, ast.Import):
+      for a in st.names:
+        imp[a.asname or a.name.split(".")[0]] = a.name if a.asname else a.name.split(".")[0]
+    elif isinstance(st, ast.ImportFrom) and st.module:
+      for a in st.names:
+        imp[a.asname or a.name] = f"{st.module}.{a.name}"
+  return imp
+
+
+def _is_iterator_expr(e, imp):
+  """`e`, evaluated once, is (or stores) an object whose state advances with
+  every next(): itertools.*, iter/map/zip/..., a generator expression, a bound
+  __next__, functools.partial(next, <iterator>), or a display holding one."""
+  if isinstance(e, ast.GeneratorExp):
+    return True
+  if isinstance(e, ast.Call):
+    d = dotted(e.func)
+    if d:
+      head, _, rest = d.partition(".")
+      full = imp.get(head, head) + ("." + rest if rest else "")
+      if full.startswith("itertools.") or (full in _ITER_BUILTINS and head not in imp):
+        return True
+      if full in ("functools.partial",) and len(e.args) >= 2 and \
+          dotted(e.args[0]) == "next" and _is_iterator_expr(e.args[1], imp):
+        return True
+    # a call that is handed a bound __next__ keeps the iterator alive
+    for a in list(e.args) + [k.value for k in e.keywords]:
+      if isinstance(a, ast.Attribute) and a.attr == "__next__" and \
+          _is_iterator_expr(a.value, imp):
+        return True
+    return False
+  if isinstance(e, ast.Attribute) and e.attr == "__next__":
+    return _is_iterator_expr(e.value, imp)
+  if isinstance(e, (ast.List, ast.Tuple, ast.Set)):
+    return any(_is_iterator_expr(x, imp) for x in e.elts)
+  if isinstance(e, ast.Dict):
+    return any(v is not None and _is_iterator_expr(v, imp) for v in e.values)
+  if isinstance(e, ast.IfExp):
+    return _is_iterator_expr(e.body, imp) or _is_iterator_expr(e.orelse, imp)
+  if isinstance(e, ast.BoolOp):
+    return any(_is_iterator_expr(v, imp) for v in e.values)
+  return False
+
+
+def _is_mutable_container(e):
+  if isinstance(e, (ast.Dict, ast.List, ast.Set, ast.ListComp, ast.DictComp, ast.SetComp)):
+    return True
+  if isinstance(e, ast.Call):
+    return (dotted(e.func) or "").split(".")[-1] in _MUTABLE_CTORS
+  return False
+
+
+def _scope_assignments(body):
+  """(name, value, line) bound by the statements of a module/class body,
+  looking through if/try/with blocks but not into functions or classes."""
+  for st in body:
+    if isinstance(st, ast.Assign):
+      for t in st.targets:
+        if isinstance(t, ast.Name):
+          yield t.id, st.value, st.lineno
+        elif isinstance(t, (ast.Tuple, ast.List)) and isinstance(
+            st.value, (ast.Tuple, ast.List)) and len(t.elts) == len(st.value.elts):
+          for a, b in zip(t.elts, st.value.elts):
+            if isinstance(a, ast.Name):
+              yield a.id, b, st.lineno
+    elif isinstance(st, ast.AnnAssign) and isinstance(st.target, ast.Name) \
+        and st.value is not None:
+      yield st.target.id, st.value, st.lineno
+    elif isinstance(st, (ast.If, ast.Try, ast.With, ast.For, ast.While)):
+      for fld in ("body", "orelse", "finalbody"):
+        yield from _scope_assignments(getattr(st, fld, []) or [])
+      for h in getattr(st, "handlers", []) or []:
+        yield from _scope_assignments(h.body)
+
+
+def _all_classes(body, prefix=""):
+  for st in body:
+    if isinstance(st, ast.ClassDef):
+      q = prefix + st.name
+      yield q, st
+      yield from _all_classes(st.body, q + ".")
+    elif isinstance(st, (ast.If, ast.Try)):
+      for fld in ("body", "orelse", "finalbody"):
+        yield from _all_classes(getattr(st, fld, []) or [], prefix)
+
+
+def _functions_with_class(node, cls=None, out=None):
+  """(function, innermost enclosing class qualname or None) for every def."""
+  out = [] if out is None else out
+  for ch in ast.iter_child_nodes(node):
+    if isinstance(ch, ast.ClassDef):
+      _functions_with_class(ch, ch.name if cls is None else f"{cls}.{ch.name}", out)
+    elif isinstance(ch, _FUNC):
+      out.append((ch, cls))
+      _functions_with_class(ch, cls, out)
+    else:
+      _functions_with_class(ch, cls, out)
+  return out
+
+
+def _local_names(fn):
+  a = fn.args
+  names = {p.arg for p in a.posonlyargs + a.args + a.kwonlyargs}
+  names |= {p.arg for p in (a.vararg, a.kwarg) if p is not None}
+  glob = set()
+  for n in walk_no_nested(fn):
+    if isinstance(n, ast.Global):
+      glob.update(n.names)
+    elif isinstance(n, ast.Name) and isinstance(n.ctx, (ast.Store, ast.Del)):
+      names.add(n.id)
+    elif isinstance(n, (ast.Import, ast.ImportFrom)):
+      names.update((al.asname or al.name).split(".")[0] for al in n.names)
+    elif isinstance(n, _FUNC + (ast.ClassDef,)):
+      names.add(n.name)
+    elif isinstance(n, ast.ExceptHandler) and n.name:
+      names.add(n.name)
+  return names - glob, glob
+
+
+def _store_targets(n):
+  """Expressions (re)bound or deleted by statement/expression n."""
+  if isinstance(n, ast.Assign):
+    todo = list(n.targets)
+  elif isinstance(n, (ast.AugAssign, ast.NamedExpr)):
+    todo = [n.target]
+  elif isinstance(n, ast.AnnAssign):
+    todo = [n.target] if n.value is not None else []
+  elif isinstance(n, ast.Delete):
+    todo = list(n.targets)
+  elif isinstance(n, (ast.For, ast.AsyncFor, ast.comprehension)):
+    todo = [n.target]
+  elif isinstance(n, (ast.With, ast.AsyncWith)):
+    todo = [i.optional_vars for i in n.items if i.optional_vars is not None]
+  else:
+    return []
+  out = []
+  while todo:
+    t = todo.pop()
+    if isinstance(t, (ast.Tuple, ast.List)):
+      todo.extend(t.elts)
+    elif isinstance(t, ast.Starred):
+      todo.append(t.value)
+    else:
+      out.append(t)
+  return out
+
+
+def _class_store_re(class_names):
+  """Text pre-filter: an attribute store through something that can denote a
+  class object (`cls.X =`, `C.X +=`, `type(self).X =`, `x.__class__.X =`)."""
+  import re
+  alts = ["cls", r"__class__", r"type\([^()]*\)"] + [re.escape(c) for c in sorted(class_names)]
+  return re.compile(r"(?:\b(?:%s))\s*\.\s*\w+\s*(?::[^=\n]+)?(?:[-+*/|&^%%@]|//|<<|>>|\*\*)?=(?!=)"
+                    % "|".join(alts))
+
+
+def _scan_state_holders(ctx, rel):
+  """{qualified name: {"kinds": set, "line": int, "how": [text]}} for one file."""
+  tree = _plain_tree(ctx, rel)
+  imp = _import_map(tree)
+  holders = {}
+
+  def hold(qual, kind, line, how):
+    h = holders.setdefault(qual, {"kinds": set(), "line": line, "how": []})
+    h["kinds"].add(kind)
+    if len(h["how"]) < 3:
+      how = how if isinstance(how, str) else f"{how[0]}: {src(how[1])}"
+      h["how"].append(how[:70])
+
+  mod_vals = {}
+  for name, val, line in _scope_assignments(tree.body):
+    mod_vals[name] = (val, line)
+    if _is_iterator_expr(val, imp):
+      hold(name, "iterator", line, f"{name} = {src(val)}")
+  classes = dict(_all_classes(tree.body))
+  top_classes = {q for q in classes if "." not in q}
+  cls_mut = {}       # attr -> [class qualname]
+  cls_lines = {}
+  for q, cd in classes.items():
+    for name, val, line in _scope_assignments(cd.body):
+      if _is_iterator_expr(val, imp):
+        hold(f"{q}.{name}", "iterator", line, f"{name} = {src(val)}")
+      if _is_mutable_container(val):
+        cls_mut.setdefault(name, []).append(q)
+        cls_lines[(q, name)] = line
+  mod_mut = {n for n, (v, _) in mod_vals.items() if _is_mutable_container(v)}
+  # the function bodies matter only if there is something they could touch
+  text = ctx.read(rel)
+  if not (mod_mut or cls_mut or "global " in text or "setattr(" in text
+          or _class_store_re(top_classes).search(text)):
+    return holders
+  # attributes that some code rebinds on an instance: `x.A = ...`
+  inst_rebound = set()
+  if cls_mut:
+    for n in ast.walk(tree):
+      if isinstance(n, (ast.Assign, ast.AnnAssign)):
+        for t in _store_targets(n):
+          if isinstance(t, ast.Attribute):
+            inst_rebound.add(t.attr)
+
+  for fn, cls in _functions_with_class(tree):
+    local, glob = _local_names(fn)
+    first = fn.args.args[0].arg if fn.args.args else None
+    is_clsmeth = any(dotted(d) == "classmethod" for d in fn.decorator_list) \
+        or fn.name in _CLS_METHODS
+
+    def class_ref(e):
+      """Qualified class name if `e` denotes a class object, else None."""
+      if isinstance(e, ast.Name):
+        if e.id in top_classes and e.id not in local:
+          return e.id
+        if is_clsmeth and cls and e.id == first:
+          return cls
+        return None
+      if isinstance(e, ast.Call) and dotted(e.func) == "type" and len(e.args) == 1:
+        return cls or "<type(...)>"
+      if isinstance(e, ast.Attribute) and e.attr == "__class__":
+        return cls or "<__class__>"
+      return None
+
+    def _mutation(recv, line, fn=fn, text="", local=local, class_ref=class_ref):
+      """`recv` is mutated in place (item store/delete or mutator call)."""
+      if isinstance(recv, ast.Name):
+        if recv.id in mod_mut and recv.id not in local:
+          hold(recv.id, "container-mutation", line, (fn.name, text))
+      elif isinstance(recv, ast.Attribute) and recv.attr in cls_mut and \
+          recv.attr not in inst_rebound:
+        c = class_ref(recv.value)
+        owners = [c] if c in cls_mut[recv.attr] else cls_mut[recv.attr]
+        for q in owners:
+          hold(f"{q}.{recv.attr}", "container-mutation", line, (fn.name, text))
+
+    for n in walk_no_nested(fn):
+      for t in _store_targets(n):
+        if isinstance(t, ast.Name) and t.id in glob:
+          hold(t.id, "global-rebind", n.lineno if hasattr(n, "lineno") else fn.lineno,
+               f"{fn.name}: global {t.id}")
+        elif isinstance(t, ast.Attribute):
+          c = class_ref(t.value)
+          if c:
+            hold(f"{c}.{t.attr}", "class-attr-rebind", t.lineno, (fn.name, n))
+          elif isinstance(t.value, ast.Name) and t.value.id not in local and \
+              t.value.id in imp and not isinstance(n, ast.AnnAssign):
+            hold(f"{imp[t.value.id]}.{t.attr}", "foreign-module-attr", t.lineno,
+                 f"{fn.name}: {src(n)}")
+        elif isinstance(t, ast.Subscript):
+          _mutation(t.value, t.lineno, text=n)
+      if isinstance(n, ast.Call):
+        d = dotted(n.func)
+        if d == "setattr" and len(n.args) == 3 and class_ref(n.args[0]):
+          a = n.args[1].value if isinstance(n.args[1], ast.Constant) else "<computed>"
+          hold(f"{class_ref(n.args[0])}.{a}", "class-attr-rebind", n.lineno,
+               f"{fn.name}: {src(n)}")
+        elif isinstance(n.func, ast.Attribute) and n.func.attr in _MUTATORS:
+          _mutation(n.func.value, n.lineno, text=n)
+  return holders
+
+
+
+# Triaged state holders (frozen): (file, qualified name) -> (allowed kinds,
+# why the state cannot make one analysis depend on an earlier one).  Every
+# entry was decided by reading the code on the reference tree.
+_STATE_HOLDERS = {
+    ("pytype/abstract/_singletons.py", "Singleton._instance"): (
+        ("class-attr-rebind",),
+        "per-class singleton object: Python runs __init__(name, ctx) on the "
+        "object __new__ returns at every construction, which re-initialises "
+        "name, ctx and class; only the object's identity is shared"),
+    ("pytype/abstract/_singletons.py", "Unknown._current_id"): (
+        ("class-attr-rebind",),
+        "numbers the internal names ~unknownN: every ~unknown class/type is "
+        "removed (RemoveUnknownClasses, convert_structural.extract_local) or "
+        "replaced by its solution (insert_solution) before any output, and "
+        "diagnostics print an Unknown as Any (print_pytd applies "
+        "RemoveUnknownClasses); the number itself only reaches the log"),
+    ("pytype/errors/errors.py", "_ERROR_NAMES"): (
+        ("container-mutation",),
+        "filled by the @_error_name decorator while errors.py is imported; "
+        "constant afterwards"),
+    ("pytype/overlays/fiddle_overlay.py", "_INSTANCE_CACHE"): (
+        ("container-mutation",),
+        "keyed by (ctx.root_node, abstract class, kind): the key consists of "
+        "objects of one analysis context, which the cache keeps alive, so a "
+        "later analysis can never produce an equal key; memory only"),
+    ("pytype/pytd/base_visitor.py", "Visitor._visitor_functions_cache"): (
+        ("container-mutation",),
+        "keyed by visitor class; the value is the table of that class's "
+        "Enter/Visit/Leave methods, a function of the class definition"),
+    ("pytype/pytd/base_visitor.py", "_ancestor_map"): (
+        ("global-rebind",),
+        "computed once, lazily, from the field types of the pytd node "
+        "classes: a pure function of pytype's own source"),
+    ("pytype/pytd/parse/node.py", "_visiting"): (
+        ("container-mutation",),
+        "names of the visitors on the call stack, read only to label "
+        "metrics; add/remove are paired by try/finally"),
+    ("pytype/pytd/pytd.py", "Class._name2item"): (
+        ("container-mutation",),
+        "a msgspec struct *field* with a mutable default: msgspec copies {} "
+        "for every instance, the dict is not shared through the class"),
+    ("pytype/pytd/pytd.py", "TypeDeclUnit._name2item"): (
+        ("container-mutation",),
+        "a msgspec struct *field* with a mutable default: msgspec copies {} "
+        "for every instance, the dict is not shared through the class"),
+    ("pytype/rewrite/overlays/overlays.py", "CLASS_TRANSFORMS"): (
+        ("container-mutation",),
+        "registration table filled by the @register_class_transform "
+        "decorators while the overlay modules are imported"),
+    ("pytype/rewrite/overlays/overlays.py", "FUNCTIONS"): (
+        ("container-mutation",),
+        "registration table filled by the @register_function decorators "
+        "while the overlay modules are imported"),
+}
+
+
+@rule("R4.8", "C04", floor=12)
+def r4_8(ctx):
+  """No untriaged process-lifetime state holder in the analysis modules."""
+  files = [f for f in all_py_files(ctx)
+           if not _is_test(f) and f not in _STATE_EXCLUDED
+           and not f.startswith(_STATE_EXCLUDED_DIRS)]
+  if len(files) < 150:
+    raise AnalysisError(f"only {len(files)} analysis modules found under pytype/")
+  seen = set()
+  total = 0
+  for rel in files:
+    for qual, h in sorted(_scan_state_holders(ctx, rel).items()):
+      total += 1
+      construct = f"{rel.removeprefix('pytype/')}:{qual}"
+      kinds = sorted(h["kinds"])
+      facts = {"kinds": kinds, "how": h["how"]}
+      entry = _STATE_HOLDERS.get((rel, qual))
+      if entry is None:
+        ctx.bad(construct, rel, h["line"],
+                f"`{qual}` in {rel} is state that lives as long as the process "
+                f"({', '.join(kinds)}: {'; '.join(h['how'])}) and is not in the "
+                "triaged table: what one analysis leaves in it is seen by the "
+                "next analysis in the same process, so the output for a fixed "
+                "source and options can depend on what was analysed before",
+                facts)
+        continue
+      seen.add((rel, qual))
+      extra = [k for k in kinds if k not in entry[0]]
+      if extra:
+        ctx.bad(f"{construct}:new-kind={','.join(extra)}", rel, h["line"],
+                f"`{qual}` was triaged as {list(entry[0])} ({entry[1]}) but is "
+                f"now also changed by {extra}: {'; '.join(h['how'])}", facts)
+        continue
+      ctx.ok(construct, rel, h["line"], facts | {"triaged": entry[1]})
+  ctx.ok("scope", "pytype/", 0, {"modules_scanned": len(files), "state_holders": total,
+                                 "excluded": list(_STATE_EXCLUDED + _STATE_EXCLUDED_DIRS)})
+  for k in _STATE_HOLDERS:
+    if k not in seen and k[0] in files:
+      ctx.note(f"R4.8 triage entry no longer matches a state holder: {k}")
+
+
+TYPING_OVERLAY = "pytype/overlays/typing_overlay.py"
+_NEWTYPE_COUNTER = ("    val = self._internal_name_counter\n"
+                    "    self._internal_name_counter += 1\n    return val\n")
+_BUILTIN_STUBS = "pytype/imports/builtin_stubs.py"
+# drops the process-wide builtins cache (reported by R4.8 on the reference tree)
+_NO_BUILTINS_CACHE = [
+    (_BUILTIN_STUBS, "_cached_builtins_pytd = []\n", ""),
+    (_BUILTIN_STUBS, "  if _cached_builtins_pytd:\n    del _cached_builtins_pytd[0]\n",
+     "  pass\n"),
+    (_BUILTIN_STUBS,
+     "  if not _cached_builtins_pytd:\n"
+     "    _cached_builtins_pytd.append(BuiltinsAndTyping().load(options))\n"
+     "  return _cached_builtins_pytd[0]\n",
+     "  return BuiltinsAndTyping().load(options)\n"),
+]
+
 VARIANTS = [
     # -- R4.1 ---------------------------------------------------------------
     {"name": "drop-CanonicalOrdering", "rule": "R4.1", "file": IO, "expect": "fire",
@@ -1635,4 +2058,63 @@ VARIANTS = [
     {"name": "twin-set-to-set-comprehension", "rule": "R4.6", "file": IO, "expect": "silent",
      "old": "  names = {e.name for e in errorlog}\n",
      "new": "  names = {e.name for e in errorlog}\n  lowered = {n.lower() for n in names}\n"},
+    # -- R4.8 (the `twin-` variants also drop the builtins cache that the rule
+    # reports on the reference tree, so that they are silent there)
+    {"name": "seeded-C04-m2", "rule": "R4.8", "patch": "seeded/C04-m2/patch.diff",
+     "expect": "fire"},
+    {"name": "newtype-counter-on-the-class", "rule": "R4.8", "file": TYPING_OVERLAY,
+     "expect": "fire", "old": _NEWTYPE_COUNTER,
+     "new": "    val = NewType._issued\n    NewType._issued += 1\n    return val\n"},
+    {"name": "newtype-counter-on-type-of-self", "rule": "R4.8", "file": TYPING_OVERLAY,
+     "expect": "fire", "old": _NEWTYPE_COUNTER,
+     "new": "    type(self)._issued = getattr(type(self), \"_issued\", -1) + 1\n"
+            "    return type(self)._issued\n"},
+    {"name": "newtype-counter-module-global", "rule": "R4.8", "file": TYPING_OVERLAY,
+     "expect": "fire", "old": _NEWTYPE_COUNTER,
+     "new": "    global _newtype_serial\n    _newtype_serial += 1\n    return _newtype_serial\n"},
+    {"name": "newtype-names-from-module-level-partial", "rule": "R4.8", "expect": "fire",
+     "edits": [
+         (TYPING_OVERLAY, "class NewType(abstract.PyTDFunction):\n",
+          "_fresh_suffix = functools.partial(next, itertools.count())\n\n\n"
+          "class NewType(abstract.PyTDFunction):\n"),
+         (TYPING_OVERLAY, _NEWTYPE_COUNTER, "    return _fresh_suffix()\n")]},
+    {"name": "unknown-names-memoised-per-process", "rule": "R4.8",
+     "file": "pytype/pytd/escape.py", "expect": "fire",
+     "old": "def unknown(idcode: int) -> str:\n  return UNKNOWN + str(idcode)\n",
+     "new": "_UNKNOWN_NAMES = {}\n\n\ndef unknown(idcode: int) -> str:\n"
+            "  if idcode not in _UNKNOWN_NAMES:\n"
+            "    _UNKNOWN_NAMES[idcode] = UNKNOWN + str(len(_UNKNOWN_NAMES))\n"
+            "  return _UNKNOWN_NAMES[idcode]\n"},
+    {"name": "triaged-cache-also-rebound-through-global", "rule": "R4.8",
+     "file": "pytype/errors/errors.py", "expect": "fire",
+     "old": "def get_error_names_set():\n  return _ERROR_NAMES\n",
+     "new": "def get_error_names_set():\n  global _ERROR_NAMES\n"
+            "  _ERROR_NAMES = set(_ERROR_NAMES)\n  return _ERROR_NAMES\n"},
+    {"name": "twin-class-default-instance-increment", "rule": "R4.8", "expect": "silent",
+     "edits": _NO_BUILTINS_CACHE + [
+         (TYPING_OVERLAY, "    self._internal_name_counter = 0\n", ""),
+         (TYPING_OVERLAY,
+          "  \"\"\"Implementation of typing.NewType as a function.\"\"\"\n",
+          "  \"\"\"Implementation of typing.NewType as a function.\"\"\"\n\n"
+          "  _internal_name_counter = 0\n")]},
+    {"name": "twin-per-instance-iterator", "rule": "R4.8", "expect": "silent",
+     "edits": _NO_BUILTINS_CACHE + [
+         (TYPING_OVERLAY, "    self._internal_name_counter = 0\n",
+          "    self._internal_name_counter = itertools.count()\n"),
+         (TYPING_OVERLAY, _NEWTYPE_COUNTER,
+          "    return next(self._internal_name_counter)\n")]},
+    {"name": "twin-module-constants-from-consumed-iterators", "rule": "R4.8",
+     "expect": "silent",
+     "edits": _NO_BUILTINS_CACHE + [
+         (TYPING_OVERLAY, "class NewType(abstract.PyTDFunction):\n",
+          "_SUFFIXES = tuple(str(i) for i in range(4))\n"
+          "_SUFFIX_INDEX = dict(zip(_SUFFIXES, itertools.count()))\n"
+          "_FIRST = next(iter(_SUFFIXES))\n\n\n"
+          "class NewType(abstract.PyTDFunction):\n")]},
+    {"name": "twin-local-shadows-module-container", "rule": "R4.8", "expect": "silent",
+     "edits": _NO_BUILTINS_CACHE + [
+         ("pytype/errors/errors.py", "def get_error_names_set():\n  return _ERROR_NAMES\n",
+          "def get_error_names_set():\n  return _ERROR_NAMES\n\n\n"
+          "def _sorted_error_names():\n  _ERROR_NAMES = set(get_error_names_set())\n"
+          "  _ERROR_NAMES.discard(\"\")\n  return sorted(_ERROR_NAMES)\n")]},
 ]
